@@ -121,7 +121,7 @@ def build_loss(rec, derivative_keys=None):
             class Eq(PDENonStatio):
                 def equation(self, t, x, u, p):
                     return resid_grid(jnp.concatenate([t, x], axis=1), u(t, x, p), p)
-        dyn = Eq(Tmax=1)
+        dyn = Eq(Tmax=float(rec.get("Tmax", 1)))
     elif R:
         if lkind == "ode":
             class Eq(ODE):
@@ -136,7 +136,8 @@ def build_loss(rec, derivative_keys=None):
             class Eq(PDENonStatio):
                 def equation(self, t, x, u, p):
                     return resid(jnp.concatenate([t, x]), u(t, x, p), p)
-        dyn = Eq(Tmax=1, eq_params_heterogeneity=het)
+        # Tmax is an attribute of the user's dynamic loss that ONLY the user's equation may use (ours does not): any value must give the same loss
+        dyn = Eq(Tmax=float(rec.get("Tmax", 1)), eq_params_heterogeneity=het)
 
     def wt(v):
         return float(v[0]) if len(v) == 1 else jnp.array([float(a) for a in v])
@@ -266,7 +267,7 @@ def build_sysloss(rec, dk_dict=None, onehot=None):
         pd = jinns.parameters.ParamsDict(nn_params={k: common for k in u_dict},
                                          eq_params={k: jnp.array(float(v)) for k, v in zip(pkeys, rec["th"])})
     else:
-        u_dict = {n["name"]: make_pinn([n["V"]], eq_type, output_transform=aff) for n in rec["nets"]}
+        u_dict = {n["name"]: make_pinn([n["V"]] + ([n["V2"]] if "V2" in n else []), eq_type, output_transform=aff) for n in rec["nets"]}
         pd = jinns.parameters.ParamsDict(nn_params={k: u.init_params() for k, u in u_dict.items()},
                                          eq_params={k: jnp.array(float(v)) for k, v in zip(pkeys, rec["th"])})
 
@@ -295,7 +296,7 @@ def build_sysloss(rec, dk_dict=None, onehot=None):
             class Eq(PDENonStatio):
                 def equation(self, t, x, ud, p):       # documented order: (t, x, u_dict, params_dict)
                     return resid(jnp.concatenate([t, x]), ud, p)
-        return Eq(Tmax=1)
+        return Eq(Tmax=float(rec.get("Tmax", 1)))
 
     dyn = {e["name"]: mk_eq(e["R"]) for e in rec["eqs"]}
     kw = {}
@@ -308,6 +309,8 @@ def build_sysloss(rec, dk_dict=None, onehot=None):
         wu = lambda f: ({n: (1.0 if n == onehot else 0.0) for n in names} if onehot != "*" else 1.0)
     if dk_dict is not None:
         kw["derivative_keys_dict"] = dk_dict
+    if any("V2" in n for n in rec["nets"]):       # per-unknown observation slices
+        kw["obs_slice_dict"] = {n["name"]: jnp.s_[n["obsd"]["slice"][0] - 1:n["obsd"]["slice"][1]] for n in rec["nets"]}
     wf = rec["wform"] if onehot is None else "scalar"
     if lkind == "ode":
         if wf == "nodyn":
@@ -478,7 +481,13 @@ def run_gradbatch(task):
         if not any(all(q["n"] == 0 for q in grp) for row in G for grp in row):
             break
     else:
-        raise RuntimeError("vacuous C06 problem: some (term, group) pair has a zero gradient")
+        # with EVERYTHING selected some (term, group) pair has an exactly zero gradient on 25 independently drawn problems in which
+        # every term depends on every group by construction (u = V * k1 + k2): the selected pair does not receive its gradient
+        m0 = task["masks"][0]
+        return dict(_many=[dict(kind="grad", lkind=lkind, mask=m0["mask"], form=m0.get("form", "bool"), G=G, ref=[frac(ref_vals[t]) for t in terms],
+                                obs=dict(total=dict(n=0, d=1, ok=True), terms=[], grad=[]), src=m0.get("src", "tlc"),
+                                exc="SelectedPairGradientIsZero: with every (term, group) pair selected the gradient of a term w.r.t. a group it "
+                                    "depends on is exactly zero on 25 independently drawn problems")])
     ref = [frac(ref_vals[t]) for t in terms]
 
     @jax.jit
@@ -861,7 +870,11 @@ def run_sysgradbatch(task):
         if ok:
             break
     else:
-        raise RuntimeError("vacuous C06 system problem")
+        m0 = task["masks"][0]
+        return dict(_many=[dict(kind="grad", lkind=lk, form="bool", G=G, ref=[frac(ref_vals[t]) for t in tnames], mask=[[True, True, True, True]],
+                                obs=dict(total=dict(n=0, d=1, ok=True), terms=[], grad=[]), src=m0.get("src", "tlc"),
+                                exc="SelectedPairGradientIsZero: with every (unknown, term, group) triple selected the gradient of a per-unknown term "
+                                    "w.r.t. its own network or an equation parameter it depends on is exactly zero on 25 independently drawn problems")])
     ref = [frac(ref_vals[t]) for t in tnames]
     outs = []
     for m in task["masks"]:
